@@ -660,7 +660,10 @@ def transform_imports(codeblock, transformations, params=None):
             block = PythonBlock(block)
         s = block.text.joined
         for k, v in transformations.items():
-            s = re.sub("\\b%s\\b" % (re.escape(k)), v, s)
+            # A match preceded by a dot is the tail of some other dotted name
+            # (possibly one inserted by an earlier transformation), never the
+            # name being renamed.
+            s = re.sub("(?<!\\.)\\b%s\\b" % (re.escape(k)), v, s)
         return PythonBlock(s, flags=block.flags)
     # Loop over transformer blocks.
     for block in transformer.blocks:
